@@ -261,3 +261,9 @@ CONTRACTS = [SCHED_FOR, IB_INIT, IB_START, IB_NEXT, IB_STYPE, IB_INF, IB_PCT, IB
 ASSUMPTIONS = ["exact-real arithmetic; every scheduler's next(current) >= current (assumed in the generator; proved for the deterministic scheduler)", "time.perf_counter values are reals recorded as ghost events"]
 NOT_DECIDED = ["Poisson distribution shape", "target-throughput string parsing (regex)", "time-period branch of the generator and schedule_for construction (not yet under contract in this revision)"]
 TRUSTED = []
+
+# warm-up and time period are measured from the task's start, not from the end of a client's ramp-up wait: the executor contract of C04, claimed here too
+from contracts.C04 import CALL as _EXEC_CALL  # noqa: E402
+
+CONTRACTS += [dict(_EXEC_CALL, prop="C05")]
+
